@@ -140,7 +140,7 @@ def call_assemble(vcls, mclss, vrec, mrecs, id_, name, fault=None, prequery=Fals
     from moclo import errors
     from moclo.record import CircularRecord
     out = {"kind": "error", "exc": "", "moclo": False, "attr_ovh": [], "dup_ids": [], "seq": [], "id": "", "name": "",
-           "topo": "", "comment": [], "circular": False, "feats": [], "refs": [], "unused": [], "nwarn": 0, "fired": "", "cv": False, "cm": []}
+           "topo": "", "comment": [], "circular": False, "feats": [], "refs": [], "unused": [], "nwarn": 0, "fired": "", "cv": False, "cm": [], "isa": []}
     ctl = {"n": 0, "at": 0, "exc": "", "calls": [], "fired": ""}
     if fault:
         ctl.update(at=fault["at"], exc=fault["exc"])
@@ -183,6 +183,7 @@ def call_assemble(vcls, mclss, vrec, mrecs, id_, name, fault=None, prequery=Fals
     except BaseException as ex:  # noqa
         out["exc"] = type(ex).__name__
         out["moclo"] = isinstance(ex, errors.MocloError)
+        out["isa"] = [n for n in ("InvalidSequence", "DuplicateModules", "MissingModule") if isinstance(ex, getattr(errors, n))] or [type(ex).__name__]
         if isinstance(ex, errors.MissingModule):
             out["attr_ovh"] = dna.enc(ex.start_overhang) if ex.start_overhang is not None else []
         if isinstance(ex, errors.DuplicateModules):
